@@ -330,6 +330,8 @@ int prop_fwd(Run& run) {
             mode = "type-descriptions";
             std::set<std::string> pool;
             gen_names(rng, root, rng.range(1, 8), pool);
+            if (pool.empty())
+                pool.insert("Lonely"); // (the structure generator can come back empty-handed)
             TypeGen tg{rng, std::vector<std::string>(pool.begin(), pool.end()), {}};
             int n = rng.range(1, 4);
             for (int i = 0; i < n; ++i)
